@@ -54,6 +54,7 @@ def run_property(prop, tier, repo):
             if cfg != "default" and getattr(rule, "serde_only", False):
                 continue
             rule(F, R)
+        downgrade_opaque(F, R)
     if tier == "thorough":
         for extra in spec.get("thorough", []):
             extra(R, repo)
@@ -61,6 +62,45 @@ def run_property(prop, tier, repo):
             import extras
             extras.mutant_selftest(R, repo, prop)
     return R
+
+
+def downgrade_opaque(F, R):
+    """A body that routes its work through crate-private trait plumbing which the inliner could
+    not resolve (a call of a method of a private trait on an associated type or a generic
+    parameter, selected by blanket impls) is not something the rules can read: the call is opaque,
+    and "the field is not written / not covered" verdicts about such a body say nothing.  Such
+    verdicts become undecided sites; violations about bodies without opaque calls are unaffected."""
+    from core import callee_tag, classify
+    private_traits = set()
+    public_traits = set()
+    for b in F.bodies.values():
+        tr = b.owner.get("trait") or b.owner.get("in_trait")
+        if tr and b.kind == "AssocFn" and not b.derived:
+            (public_traits if b.d.get("vis_pub") else private_traits).add(tr.split("<")[0])
+    private_traits -= public_traits
+    if not private_traits:
+        return
+    opaque = {}
+    for b in F.bodies.values():
+        if b.in_tests() or b.derived:
+            continue
+        for (bi, t) in b.calls():
+            ce = t.get("callee") or {}
+            if ce.get("local") and ce.get("kind") == "AssocFn" and (ce.get("trait") or "").split("<")[0] in private_traits \
+                    and classify(ce) == "unclassified":
+                opaque.setdefault(b.label(), ce.get("pretty") or ce.get("path"))
+    if not opaque:
+        return
+    for key in list(R.violations):
+        v = R.violations[key]
+        if v["subject"] in opaque:
+            del R.violations[key]
+            R.undecided_site(v["rule"], v["subject"], "not judged (%s): the body calls %s, a method of a crate-private trait the "
+                             "analysis could not resolve to an implementation" % (v["construct"][:60], opaque[v["subject"]][:80]))
+            for o in R.obligations:
+                if not o["ok"] and o["rule"] == v["rule"] and o["subject"] == v["subject"] and o["construct"] == v["construct"]:
+                    o["ok"] = True
+                    o["detail"] = "(undecided: opaque private-trait call) " + str(o["detail"])
 
 
 def main():
